@@ -161,6 +161,22 @@ func loadCorpus(dir string) []json.RawMessage {
 	return out
 }
 
+// withWatchdog runs f; if it does not return in time the case is reported as hung and the
+// goroutine is abandoned (each case owns its database, so later cases are unaffected).
+func withWatchdog(d time.Duration, f func()) (hung bool) {
+	done := make(chan struct{})
+	go func() {
+		defer close(done)
+		f()
+	}()
+	select {
+	case <-done:
+		return false
+	case <-time.After(d):
+		return true
+	}
+}
+
 func fatalf(format string, a ...any) {
 	fmt.Fprintf(os.Stderr, "harness: "+format+"\n", a...)
 	os.Exit(3)
